@@ -330,8 +330,15 @@ def replay_reload_walk(walk):
         return True
 
     muts = []
+    # fit RESULTS (uncertainties, covariance, result dictionary) are compared only while they are current: after a mutator and before the
+    # next fit the statement promises the same configuration and "the same result when refitted", not the same left-over results
+    results_current = False
     for k, e in enumerate(walk["steps"]):
         a = e["a"]
+        if a["name"] == "DoFit":
+            results_current = True
+        elif a["name"] not in ("Read", "Reload"):
+            results_current = False
         if a["name"] == "Reload":
             if not e.get("posdef", True):
                 continue
@@ -343,7 +350,8 @@ def replay_reload_walk(walk):
             if not compare(k, "(right after reloading)", RELOAD_OBS):
                 return issues
         elif a["name"] == "Read":
-            if twin is not None and e.get("posdef", True) and not compare(k, "(later read)", [a["o"]]):
+            if twin is not None and e.get("posdef", True) and (results_current or a["o"] not in ("result", "perrs", "pcov")) \
+                    and not compare(k, "(later read)", [a["o"]]):
                 return issues
             elif twin is None:
                 fl.safe_read(orig, ftype, a["o"])
